@@ -126,6 +126,31 @@ def gen_exact_boundary(seed, tier):
     return hs
 
 
+def gen_merge_boundary(seed, tier):
+    """two multi-member clusters (each below 256 members, together above 255) built under a strict
+    threshold and then MERGED by a recluster / refine under a lax one: the count jumps over a
+    counter-width boundary without ever being equal to it"""
+    rng = random.Random(seed + 17)
+    hs = []
+    for a, b in ([(180, 120)] if tier == "quick" else [(180, 120), (200, 100), (130, 130), (254, 3)]):
+        nf = 8
+        rows = []
+        for n, own in ((a, [3, 4]), (b, [5, 6])):
+            for _ in range(n):
+                r = [1, 1, 1, 0, 0, 0, 0, 0]
+                for j in own:
+                    r[j] = 1
+                if rng.random() < 0.1:
+                    r[7] = 1
+                rows.append(r)
+        for tail in ({"op": "recluster", "iters": 1, "extra": 0.0, "shuffle": False, "seed": 0, "stop_early": False},
+                     {"op": "refine", "n_largest": 0, "initial_mol": 0}):
+            hs.append({"cfg": {"crit": "diameter", "tol": None, "thr": 0.8, "bf": 50}, "nf": nf,
+                       "ops": [{"op": "fit", "rows": rows, "labels": None, "form": "unpacked-array", "bad_at": None},
+                               {"op": "setcfg", "crit": None, "tol": None, "thr": 0.3, "bf": None}, tail]})
+    return hs
+
+
 def gen_switch(seed, n):
     """grow clusters under a lax pair, then tighten / switch the criterion and keep fitting"""
     rng = random.Random(seed + 13)
@@ -147,7 +172,8 @@ def gen_switch(seed, n):
 
 
 def suite_boundary(seed, tier):
-    return _run("boundary", gen_boundary(seed, tier) + gen_exact_boundary(seed, tier), walk=True, shard=1)
+    return _run("boundary", gen_boundary(seed, tier) + gen_exact_boundary(seed, tier)
+                + gen_merge_boundary(seed, tier), walk=True, shard=1)
 
 
 def suite_exhaustive(seed, tier):
@@ -175,7 +201,8 @@ def search_hist(which):
         for kind, d in failures:
             if isinstance(d, dict) and "history" in d:
                 cands.append(d["history"])
-        cands += gen_exact_boundary(seed + 1, "thorough") + gen_switch(seed + 1, 150)
+        cands += gen_exact_boundary(seed + 1, "thorough") + gen_merge_boundary(seed + 1, "thorough") \
+            + gen_switch(seed + 1, 150)
         cands += gen_boundary(seed + 1, "quick")[:2]
         cands += gen_histories(seed + 1, 150 if tier == "quick" else 1500, max_ops=10, max_rows=24)
         for h in cands:
